@@ -205,6 +205,46 @@ func c08ServerSeam(r *ev.Result, base string, good []byte, goodPin string) {
 		os.RemoveAll(dir)
 		n++
 	}
+	/* And an intact cache over restarts of the server as the program builds
+	it, with the listen and callback addresses it may be given: one key,
+	the file left alone. */
+	for i, cfg := range []hworld.Config{
+		{Listen: "127.0.0.1:0"},
+		{Listen: "127.0.0.1:0", CbAddrs: []string{"192.0.2.7", "cb.example"}},
+		{Listen: "[::1]:0", CbAddrs: []string{"cb.example:8443"}},
+	} {
+		dir := filepath.Join(base, fmt.Sprintf("srv-good-%d", i))
+		os.MkdirAll(dir, 0o700)
+		cache := filepath.Join(dir, "cert.txtar")
+		os.WriteFile(cache, good, 0o600)
+		cfg.CertFile = cache
+		for k := 0; k < 3; k++ {
+			if 2 == k {
+				cfg.CbAddrs = append(cfg.CbAddrs, "one-more.example") /* The operator adds a name. */
+			}
+			w, err := hworld.Start(cfg)
+			if nil != err {
+				if 0 == k && strings.Contains(cfg.Listen, "::1") {
+					break /* No IPv6 loopback here. */
+				}
+				r.Violate(ev.Violation{Signature: "server/good-cache-refused", Kind: "c08server", Replay: map[string]any{"config": i, "start": k + 1}, What: fmt.Sprintf("server start %d on an intact cache (listen %s, callback addresses %v) failed: %v", k+1, cfg.Listen, cfg.CbAddrs, err)})
+				break
+			}
+			pin, perr := c05Wire(w, "")
+			w.Stop()
+			now, _ := os.ReadFile(cache)
+			switch {
+			case nil != perr:
+				r.Violate(ev.Violation{Signature: "server/unusable-key", Kind: "c08server", Replay: map[string]any{"config": i, "start": k + 1}, What: fmt.Sprintf("server start %d on an intact cache: handshake fails: %v", k+1, perr)})
+			case pin != goodPin:
+				r.Violate(ev.Violation{Signature: "server/identity-changed", Kind: "c08server", Replay: map[string]any{"config": i, "start": k + 1}, What: fmt.Sprintf("server start %d on an intact cache (listen %s, callback addresses %v) presents key %q, the cache held %q", k+1, cfg.Listen, cfg.CbAddrs, pin, goodPin)})
+			case !bytes.Equal(now, good):
+				r.Violate(ev.Violation{Signature: "server/file-rewritten", Kind: "c08server", Replay: map[string]any{"config": i, "start": k + 1}, What: fmt.Sprintf("server start %d on an intact cache (listen %s, callback addresses %v) rewrote the cache file", k+1, cfg.Listen, cfg.CbAddrs)})
+			}
+			n++
+		}
+		os.RemoveAll(dir)
+	}
 	r.Add(n)
 	r.AddDistinct(n)
 	r.Set("server_level_damaged_caches", n)
